@@ -218,7 +218,8 @@ def _step_block(self, p):
 Interp.step_block = _step_block
 
 
-def check_layouts(rep, mir, tier, st):
+def check_layouts(rep, mir, tier, st, only=None, keyprefix='check_branches'):
+    """only: restrict the reported obligation kinds (C13 reuses the run for 'labels', 'disp', 'panic')"""
     fn = [n for n in mir.index if n.endswith('>::check_branches') and 'assemble.rs' in n][0]
     st['functions'] = [fn]
     drv_reqs, drv_meta = [], {}
@@ -258,7 +259,7 @@ def check_layouts(rep, mir, tier, st):
                 st['obligations'] += 1
                 d = displacement(fin, k)
                 if d is None:
-                    rep.violation('check_branches.labels.%s' % title, 'layout %s: label %s not defined exactly once after repair' % (title, x[2]), dict(kind='mir-branch', layout=spec)); continue
+                    rep.violation('%s.labels.%s' % (keyprefix, title), 'layout %s: label %s not defined exactly once after repair' % (title, x[2]), dict(kind='mir-branch', layout=spec)); continue
                 m = model(p.pc + [z3.Or(d > 127, d < -128)])
                 if m is None: st['discharged'] += 1; continue
                 v2 = {str(s_): m.eval(s_, model_completion=True).as_long() for s_ in syms}
@@ -292,7 +293,8 @@ def check_layouts(rep, mir, tier, st):
                 rep.inconc('engine/real mismatch on layout %s sizes %s: predicted %s, real %s' % (title, vals, pred, real if j.get('status') == 'ok' else j))
             else: st['validated_paths'] += 1
             continue
-        key = 'check_branches.%s.%s' % (what, title)
+        key = '%s.%s.%s' % (keyprefix, what, title)
+        if only is not None and what not in only: continue
         if what == 'panic':
             if j.get('status') == 'panic': rep.violation(key, 'check_branches panics on layout %s with sizes %s: %s' % (title, vals, j.get('msg')), dict(kind='mir-branch', layout=spec, sizes=vals, spec=spec_text(spec, vals)))
             else: rep.inconc('panic path of layout %s did not reproduce (%s)' % (title, pred))
